@@ -84,6 +84,36 @@ for _pid, _what in (("C04", "select1/select0 refuse k >= count; positions checke
         "static rule over MIR deciding ONLY the refusal clause: " + _what,
         "one clause only; the numeric / sequence-equality substance of the property is value-level and explicitly not decided",
         "DESIGN.md section 4 %s, section 3 R-GUARD (refusal form)" % _pid)
+CLAIMED["C01"] = (
+    "MIR lookup-miss discipline on encode paths (R-MISS, incl. truncating clamps) and model/framing layout agreement (R-PAIR)",
+    "static rules over MIR: the miss edge of every code lookup on an encode path must reach Err / a fallback lookup before the "
+    "next iteration or a normal return (all-zero table entries count as the unset marker); serialize/deserialize pairs of the "
+    "entropy models agree on widths and order",
+    "two structural clauses of C01; prefix-freeness, normalisation arithmetic, chunk boundaries, renormalisation and the round trip are not decided",
+    "DESIGN.md section 4 C01, section 3 R-MISS / R-PAIR")
+CLAIMED["C02"] = (
+    "MIR layout-event agreement per match-type arm at byte and bit level (R-PAIR), tag->variant tables, store/load path symmetry "
+    "with devirtualisation of dyn fields by who-may-write (R-SYM)",
+    "static rules over MIR: per CompressionType arm the writer's operand layout equals the reader's; tag k decodes to the variant "
+    "with discriminant k; every compress path (incl. raw fallback) has an inverse path in decompress for every impl Compressor and "
+    "the hybrid / real-time front ends",
+    "structural clauses of C02; match finding, suffix-array matcher, codec correctness and the round trip itself are not decided; "
+    "selection stability of AdaptiveCompressor after set_algorithm is not covered (demonstrated in demos/rt, see DESIGN 10.4)",
+    "DESIGN.md section 4 C02, section 3 R-PAIR / R-SYM")
+CLAIMED["C03"] = (
+    "MIR store/load path symmetry for every wrapper impl BlobStore and the DictZip entropy stage (R-SYM with codec-family stems), "
+    "content flow of persistent fields (R-FLOW), header layout agreement (R-PAIR)",
+    "static rules over MIR: what put applies get inverts on every put path; save/load carry the content of every persistent field; "
+    "header writer and reader agree",
+    "three structural clauses of C03; id allocation, len/contains/size bookkeeping, offset arithmetic and bitmap logic are not decided",
+    "DESIGN.md section 4 C03, section 3 R-SYM / R-FLOW")
+CLAIMED["C08"] = (
+    "MIR analysis of compare-exchange pops on intrusive free lists (R-ABA: version tag or live lock), tag advance on push, atomic check-then-act (R-ATOM)",
+    "static rule over MIR: every CAS whose new value is read through the loaded head must carry a +1 version tag derived from the "
+    "loaded word or run under a live lock guard; tagged lists advance the tag on every CAS",
+    "one structural clause of C08 (free structures stay well formed under pre-emption between head load and CAS); linearizability, "
+    "exactly-once hand-over and counter totals need schedule enumeration and are not decided",
+    "DESIGN.md section 4 C08, section 3 R-ABA")
 NA = {
     "C11": "sortedness/permutation/multiset equality of loops over data for all inputs and configurations is value-level; no structural clause is a necessary condition short of the result itself",
     "C12": "lexicographic order of all suffixes, exact LCP and search ranges are value-level for every construction algorithm",
